@@ -81,6 +81,10 @@ CLAIMED = {
          "Generated sessions x fault catalogue x positions; panics caught in-process, aborts isolated in children.",
          "Inputs are sanitised so that they terminate and write only into a scratch directory (counted); unbounded-recursion aborts on extreme nesting and two resource/encoder panics are known findings with regression inputs.",
          "DESIGN.md 4/C09"),
+ "C15": ("round-trip property testing + byte-level mutation (proptest-driven): grammar-generated command text over every command kind and option, parse -> Display -> parse compared by a harness-side span-free canonical tree (floats by bit pattern; modulo fresh wildcard names and the code's own flatten_sequences); extracted terms re-parsed and re-evaluated; resolve_program output printed and re-run on a fresh engine (as upstream's _desugar trials do)",
+         "Generated syntax trees / programs with round-trip oracles at three stages; only text the parser accepts is judged.",
+         "The structural comparison is the harness's own serializer (never the Display impls under test); two printer/sanitiser disagreements are known findings.",
+         "DESIGN.md 4/C15"),
 }
 
 PENDING_REASON = "check not built yet in this round (work in progress; see DESIGN.md section 8 for the build order)"
